@@ -103,6 +103,7 @@ func runC17(c *an.Ctx) {
 	ruleT1(c, "N2")
 	ruleN3(c)
 	ruleN4(c)
+	ruleN5(c)
 }
 
 func ruleN1(c *an.Ctx) {
